@@ -616,4 +616,6 @@ def rule_regex(ctx):
 
 
 def rules(tier):
-    return [rule_build, rule_both, rule_struct, rule_types, rule_guard, rule_witness, rule_regex]
+    from . import carry, c04
+    return [rule_build, rule_both, rule_struct, rule_types, rule_guard, rule_witness, rule_regex,
+            carry.make_clone_rule("R-C19-clone", c04.ALL_CRATES, 40)]
